@@ -51,7 +51,7 @@ var Metas = map[string]*Meta{
 	},
 	"C16": {
 		Level: "exploration",
-		Rule: "A run builds one index from generated (starts, ends) -- 0-12 intervals incl. start==end, start>end, duplicates, touching, nested, negative and math.MinInt/MaxInt coordinates -- shared by 1-4 simulated callers with up to 8 operations each (At at breakpoints, breakpoint+-1, below min, above max, random; scribbling over a previously returned slice in three modes; re-queries), once interleaved at whole-operation granularity on the real package and twice at statement granularity on the instrumented scratch copy (real goroutines, exactly one runnable, yield before every statement; uniform / sticky / PCT-style choice from the run PRNG); every At answer is compared with a brute-force scan; for 3% of runs a small case (2-3 callers, <= 4 operations each) additionally gets EVERY schedule with exactly one pre-emption (caller a runs k points, caller b runs to completion, then the rest: all a, k, b); 6% of cases pile 17-130 intervals on the same few positions (thresholds such as 16/32/64 members). In the instrumented copy package sort is replaced by a version that yields after every element move, because a sort of shared data is not atomic in reality. In 30% of cases a second, unrelated index is built before the queries; 0.2% of operation-granular cases use 4096-21000 intervals (half with ascending starts and long containing intervals) under a GOMAXPROCS of their own, swept at 400 positions; unrelated library calls (incl. BED12 parsing) run right before 10% of the cases. In 30% of cases the argument slices have spare capacity behind them (reusable buffers, truncated slices). 3% of cases hand NewIndex unequal lengths and expect the panic. " +
+		Rule: "A run builds one index from generated (starts, ends) -- 0-12 intervals incl. start==end, start>end, duplicates, touching, nested, negative and math.MinInt/MaxInt coordinates -- shared by 1-4 simulated callers with up to 8 operations each (At at breakpoints, breakpoint+-1, below min, above max, random; scribbling over a previously returned slice in three modes; re-queries), once interleaved at whole-operation granularity on the real package and twice at statement granularity on the instrumented scratch copy (real goroutines, exactly one runnable, yield before every statement; uniform / sticky / PCT-style choice from the run PRNG); every At answer is compared with a brute-force scan; for 3% of runs a small case (2-3 callers, <= 4 operations each) additionally gets EVERY schedule with exactly one pre-emption (caller a runs k points, caller b runs to completion, then the rest: all a, k, b); 6% of cases pile 17-130 intervals on the same few positions (thresholds such as 16/32/64 members). In the instrumented copy package sort is replaced by a version that yields after every element move, because a sort of shared data is not atomic in reality. In 30% of cases a second, unrelated index is built before the queries; 0.2% of operation-granular cases use 4096-21000 intervals (half with ascending starts and long containing intervals) under a GOMAXPROCS of their own, swept at 400 positions; unrelated library calls (incl. BED12 parsing) run right before 10% of the cases. In 30% of cases the argument slices have spare capacity behind them (reusable buffers, truncated slices). 3% of cases hand NewIndex unequal lengths and expect the panic. One case in seven draws all coordinates from an extent [lo, lo+q] whose width sits on an arithmetic cliff relative to the interval count n: q = W/(k*n) + {-1,0,1} for W in {2^64-1, 2^63-1, 2^32-1, 2^31-1}, k in 1..4, lo in {MinInt, 0, +-1, small, MaxInt-q} (packed sort keys, bucket indices and mid-point sums are right on one side of such a width and overflow on the other). " +
 			"The first 17 runs are the fixed exhaustive sweep: all 69 905 sets of <= 4 intervals over coordinates 0..3 (thorough: also all 1 048 576 sets of 5), positions -1..4, queried, scribbled, queried again. distinct_nontrivial counts distinct (index, callers' programs, executed schedule) triples; evaluations counts cases executed.",
 		Assumptions: []string{
 			"the brute-force scan {x | starts[x] <= i < ends[x]} ascending is the model; nil and empty results are equal",
